@@ -1,6 +1,145 @@
-//! C13: symmetric hash join (filled in later).
+//! C13: symmetric hash join over scripted sources.
+//!
+//! mode "inc":   the incremental `SymmetricHashJoin` pull (optionally over pre-built, i.e.
+//!               persisted, states), observed poll by poll like a C11 combinator, plus the
+//!               final tables.
+//! mode "ticks": the join operator's path: `symmetric_hash_join(.., is_new_tick = true)` once
+//!               per tick (drain both inputs, then enumerate), states cleared at the end of a
+//!               tick for a side with 'tick persistence.
+use std::borrow::Cow;
+use std::future::Future;
+use std::pin::pin;
+use std::task::{Context, Poll, Waker};
+
+use dfir_pipes::pull::{
+    HalfJoinState, HalfMultisetJoinState, HalfSetJoinState, Pull, PullStep, symmetric_hash_join,
+};
 use hvcommon::{Value, json};
 
-pub fn run_c13(_case: &Value) -> Value {
-    json!({ "bad_case": "c13 not implemented yet" })
+use crate::{FSrc, drive, num, parse_src};
+
+fn kv(x: &Value) -> (u64, u64) {
+    let a = x.as_array().expect("kv");
+    (num(&a[0]), num(&a[1]))
+}
+
+fn dump<S: HalfJoinState<u64, u64, u64>>(s: &S) -> Value {
+    let mut rows: Vec<(u64, u64)> = Vec::new();
+    for (k, vs) in s.iter() {
+        for v in vs.iter() {
+            rows.push((*k, *v));
+        }
+    }
+    rows.sort();
+    json!({ "rows": rows, "len": s.len() })
+}
+
+fn run_inc<L, R>(case: &Value, mut ls: L, mut rs: R) -> Value
+where
+    L: HalfJoinState<u64, u64, u64>,
+    R: HalfJoinState<u64, u64, u64>,
+{
+    if let Some(pre) = case["pre"].as_array() {
+        for x in pre[0].as_array().unwrap() {
+            let (k, v) = kv(x);
+            ls.build(k, Cow::Owned(v));
+        }
+        for x in pre[1].as_array().unwrap() {
+            let (k, v) = kv(x);
+            rs.build(k, Cow::Owned(v));
+        }
+    }
+    let ins = case["ins"].as_array().expect("ins");
+    let extra = case["extra"].as_u64().unwrap_or(2) as usize;
+    let total: usize = ins.iter().map(|i| i["s"].as_array().unwrap().len()).sum();
+    // every arrival can match every earlier arrival
+    let cap = (total + 2) * (total + 2) + extra + 8 + case["pre"].as_array().map_or(0, |p| {
+        (p[0].as_array().unwrap().len() + p[1].as_array().unwrap().len()) * (total + 1)
+    });
+    let lhs = FSrc::new(parse_src(&ins[0], kv));
+    let rhs = FSrc::new(parse_src(&ins[1], kv));
+    let mut res = drive(lhs.symmetric_hash_join_state(rhs, &mut ls, &mut rs), extra, cap);
+    res["tables"] = json!([dump(&ls), dump(&rs)]);
+    res
+}
+
+fn run_ticks<L, R>(case: &Value, mut ls: L, mut rs: R) -> Value
+where
+    L: HalfJoinState<u64, u64, u64>,
+    R: HalfJoinState<u64, u64, u64>,
+{
+    let persist = case["persist"].as_array().expect("persist");
+    let (p1, p2) = (persist[0].as_bool().unwrap(), persist[1].as_bool().unwrap());
+    let waker = Waker::noop();
+    let mut cx = Context::from_waker(waker);
+    let mut outs = Vec::new();
+    for tick in case["ticks"].as_array().expect("ticks") {
+        let lhs = FSrc::new(parse_src(&tick[0], kv));
+        let rhs = FSrc::new(parse_src(&tick[1], kv));
+        let mut rows: Vec<(u64, u64, u64)> = Vec::new();
+        let mut awaits = 0usize;
+        {
+            let mut fut = pin!(symmetric_hash_join(lhs, rhs, &mut ls, &mut rs, true));
+            let pull = loop {
+                match fut.as_mut().poll(&mut cx) {
+                    Poll::Ready(p) => break p,
+                    Poll::Pending => {
+                        awaits += 1;
+                        assert!(awaits < 10_000, "drain never completes");
+                    }
+                }
+            };
+            let mut pull = pin!(pull);
+            let mut polls = 0usize;
+            loop {
+                polls += 1;
+                assert!(polls < 1_000_000, "enumeration never ends");
+                match pull.as_mut().pull(&mut ()) {
+                    PullStep::Ready((k, (v1, v2)), ()) => rows.push((k, v1, v2)),
+                    PullStep::Pending(_) => {}
+                    PullStep::Ended(_) => break,
+                }
+            }
+        }
+        rows.sort();
+        outs.push(json!({ "rows": rows, "awaits": awaits, "lens": [ls.len(), rs.len()] }));
+        if !p1 {
+            ls.clear();
+        }
+        if !p2 {
+            rs.clear();
+        }
+    }
+    json!({ "ticks": outs })
+}
+
+pub fn run_c13(case: &Value) -> Value {
+    let set = match case["sem"].as_str().expect("sem") {
+        "set" => true,
+        "multi" => false,
+        o => panic!("bad sem {o}"),
+    };
+    match (case["mode"].as_str().expect("mode"), set) {
+        ("inc", true) => run_inc(
+            case,
+            HalfSetJoinState::<u64, u64, u64>::default(),
+            HalfSetJoinState::<u64, u64, u64>::default(),
+        ),
+        ("inc", false) => run_inc(
+            case,
+            HalfMultisetJoinState::<u64, u64, u64>::default(),
+            HalfMultisetJoinState::<u64, u64, u64>::default(),
+        ),
+        ("ticks", true) => run_ticks(
+            case,
+            HalfSetJoinState::<u64, u64, u64>::default(),
+            HalfSetJoinState::<u64, u64, u64>::default(),
+        ),
+        ("ticks", false) => run_ticks(
+            case,
+            HalfMultisetJoinState::<u64, u64, u64>::default(),
+            HalfMultisetJoinState::<u64, u64, u64>::default(),
+        ),
+        (o, _) => panic!("bad mode {o}"),
+    }
 }
